@@ -121,6 +121,29 @@ class LineBudget:
         return False
 
 
+class WallGuard:
+    """wall-clock guard for inputs that run without the line budget: a decoder that loops is interrupted (SIGALRM raises
+    Spin in the main thread) instead of eating memory until the check is killed"""
+    def __init__(self, seconds=4.0):
+        self.seconds = seconds
+
+    def __enter__(self):
+        import signal
+        spin = O.__dict__.setdefault("Spin", type("Spin", (BaseException,), {}))
+
+        def on_alarm(signum, frame):
+            raise spin()
+        self.old = signal.signal(signal.SIGALRM, on_alarm)
+        signal.setitimer(signal.ITIMER_REAL, self.seconds)
+        return self
+
+    def __exit__(self, *a):
+        import signal
+        signal.setitimer(signal.ITIMER_REAL, 0)
+        signal.signal(signal.SIGALRM, self.old)
+        return False
+
+
 def check(run):
     from diameter.message import Message, MessageHeader
     thorough = run.tier == "thorough"
@@ -198,12 +221,15 @@ def check(run):
     sampled = set(rng.sample(range(len(inputs)), min(len(inputs), 400 if not thorough else 3000)))
     max_ratio = 0.0
     kinds = {}
+    spins = 0
     for idx, (b, origin) in enumerate(inputs):
         dist[origin] = dist.get(origin, 0) + 1
         case = {"input": b.hex()[:400], "len": len(b), "origin": origin}
         run.count(1, [b])
         budget = LineBudget(200 * len(b) + 4000) if idx in sampled else None
+        guard = WallGuard()
         try:
+            guard.__enter__()
             if budget:
                 budget.__enter__()
             try:
@@ -250,11 +276,16 @@ def check(run):
             finally:
                 if budget:
                     budget.__exit__()
-        except BaseException as e:   # the line budget
+                guard.__exit__()
+        except BaseException as e:   # the line budget / the wall-clock guard
             if type(e).__name__ != "Spin":
                 raise
-            run.violation("terminates-linear", case, "line budget exhausted",
-                          what="decoder executes more than 200 lines per input byte (spin or super-linear)")
+            run.violation("terminates-linear", case, "line budget / wall-clock guard exhausted",
+                          what="decoder executes more than 200 lines per input byte or runs for seconds (spin or super-linear)")
+            spins += 1
+            if spins >= 3:
+                run.notes.append("three non-terminating inputs found: remaining inputs skipped")
+                break
             continue
         if budget:
             max_ratio = max(max_ratio, budget.n / (len(b) + 20))
@@ -265,6 +296,8 @@ def check(run):
         # ---- single AVP decode of the body (C01's observation on hostile bytes) -----------
         if origin in ("typed-payload", "bad-address", "random") and len(b) > 20:
             body = b[20:]
+            g2 = WallGuard()
+            g2.__enter__()
             try:
                 a = O.A.Avp.from_bytes(body)
                 tn = O.tyname_of(a)
@@ -284,6 +317,13 @@ def check(run):
                 impl = f"(Err {O.coq_err(O.err_kind(e))})"
                 if O.err_kind(e) not in LIB_ERRS:
                     run.violation("only-decode-errors", case, O.err_kind(e), what="Avp.from_bytes raises a foreign exception")
+            except BaseException as e:   # noqa
+                if type(e).__name__ != "Spin":
+                    raise
+                impl = "(Err EOther)"
+                run.violation("terminates-linear", case, "wall-clock guard exhausted", what="Avp.from_bytes does not terminate")
+            finally:
+                g2.__exit__()
             acase.append(f"({O.hx(body)}, {impl})")
             ameta.append(case)
     run.extra["input_distribution"] = dict(sorted(dist.items()))
